@@ -200,6 +200,16 @@ class Ctx:
             self.violations.append(
                 dict(kind=kind, mechanism=mechanism, witness=jsonable(witness), shard=self.shard, seed=self.base_seed)
             )
+            # a witness in hand must survive whatever happens to this process afterwards (a change under test that also
+            # exhausts memory gets the shard killed): the first few are flushed at once
+            if len(self.violations) <= 4 and getattr(self, "partial_path", None):
+                try:
+                    tmp = self.partial_path + ".tmp"
+                    with open(tmp, "w") as f:
+                        json.dump(self.dump(), f)
+                    os.replace(tmp, self.partial_path)
+                except Exception:  # noqa: BLE001
+                    pass
 
     def set_inconclusive(self, reason):
         self.inconclusive.append(reason)
@@ -262,6 +272,17 @@ def shard_main(argv):
     faulthandler.enable()
     scale = float(os.environ.get("VERIF_SCALE", "1"))
     ctx = Ctx(pid, tier, seed, shard, nshards, scale)
+    ctx.partial_path = out + ".partial"
+    try:
+        # bound the address space of a shard: runaway memory in the code under test becomes a MemoryError inside the case
+        # (an outcome like any other) instead of an out-of-memory kill of some process
+        import resource
+
+        gb = float(os.environ.get("VERIF_SHARD_MEM_GB", "6"))
+        if gb > 0:
+            resource.setrlimit(resource.RLIMIT_AS, (int(gb * 2**30), int(gb * 2**30)))
+    except Exception:  # noqa: BLE001
+        pass
     try:
         ctx.note("module_file", assert_tree())
         mod = importlib.import_module("pyabv.props." + pid.lower())
@@ -364,6 +385,14 @@ def run_shards(pid, tier, seed, nshards, timeout):
                     parts.append(json.load(f))
             except Exception as e:
                 problems.append(f"shard {i} output unreadable: {e!r}")
+        elif os.path.exists(out + ".partial"):
+            # the shard died after it had reported violations: the witnesses stand on their own
+            try:
+                with open(out + ".partial") as f:
+                    parts.append(json.load(f))
+                problems.append(f"shard {i} died rc={p.returncode} after reporting violations (kept)")
+            except Exception as e:
+                problems.append(f"shard {i} died rc={p.returncode}; partial output unreadable: {e!r}")
         elif not any(s.startswith(f"shard {i} ") for s in problems):
             tail = open(log.name).read()[-800:]
             problems.append(f"shard {i} died rc={p.returncode}: {tail}")
